@@ -119,7 +119,8 @@ def run_case(case):
                 return
 
     solve_and_compare(params, "base parameters")
-    leaves = [(fn, p) for fn, ps in params.items() if isinstance(ps, dict) and fn != "shocks" for p in ps]
+    frozen = {tuple(x) for x in desc.get("frozen_params", ())}
+    leaves = [(fn, p) for fn, ps in params.items() if isinstance(ps, dict) and fn != "shocks" for p in ps if (fn, p) not in frozen]
     order = rng.permutation(len(leaves))[:3] if leaves else []
     for j in order:
         fn, p = leaves[j]
@@ -131,7 +132,7 @@ def run_case(case):
     pb["beta"] = round(params["beta"] * 0.61, 4)
     solve_and_compare(pb, f"changed beta {params['beta']} -> {pb['beta']}")
     if ref.stoch:
-        p3 = gen.perturb_params(rng, params)
+        p3 = gen.perturb_params(rng, params, desc.get("frozen_params", ()))
         p3 = {**params, "shocks": p3["shocks"]}
         solve_and_compare(p3, "changed all shock arrays")
     # (c) permute dependency order of a stochastic transition
